@@ -210,8 +210,9 @@ UNQUANTIFIED = frozenset({'CPL', 'P3'})
 class Sem:
     """Semantics of one registered logic, by its ``Meta.name``."""
 
-    def __init__(self, name):
+    def __init__(self, name, fde_linear=False):
         self.name = name
+        self.fde_linear = fde_linear
         if name in CLASSICAL:
             base, frame, q = CLASSICAL[name]
             self.classical = True
@@ -227,7 +228,7 @@ class Sem:
             else:
                 raise KeyError(f'REF-SEM has no semantics for logic {name!r}')
         self.base_name = base
-        self.base = BASES[base]()
+        self.base = FDELinear() if (fde_linear and base == 'FDE') else BASES[base]()
         self.frame = frame
         self.modal = frame is not None
         self.quantified = q
@@ -299,6 +300,12 @@ class Sem:
 @lru_cache(maxsize=None)
 def sem(name) -> Sem:
     return Sem(name)
+
+
+@lru_cache(maxsize=None)
+def sem_linear(name) -> Sem:
+    "DIAGNOSIS ONLY: the logic with the FDE family read on the chain F<N<B<T."
+    return Sem(name, fde_linear=True)
 
 
 class Interp:
